@@ -220,6 +220,7 @@ def execute(case, tape):
     directory = watch.final_directory or directory_then
     problems = []
     kinds = set()
+    dead_agents = {a: e for a, e, _ in sim.fatal.errors}
     for c in watch.originals:
         hosts = [a for a, cs in live.items() if c in cs]
         if len(hosts) != 1:
@@ -232,8 +233,10 @@ def execute(case, tape):
         seen = {directory_then.get(c), (watch.final_directory or directory_then).get(c)}
         if hosts[0] not in seen:
             if seen == {None}:
-                problems.append(f"{c} runs on {hosts[0]} but the directory has no host for it")
-                kinds.add("directory_missing")
+                dead = hosts[0] in dead_agents
+                problems.append(f"{c} runs on {hosts[0]} but the directory has no host for it"
+                                + (f" ({hosts[0]}'s thread died: {dead_agents[hosts[0]]})" if dead else ""))
+                kinds.add("directory_missing_host_thread_died" if dead else "directory_missing")
             else:
                 problems.append(f"{c} runs on {hosts[0]} but the directory says {sorted(map(str, seen))}")
                 kinds.add("directory_other")
